@@ -36,7 +36,7 @@ type c14Fmt struct {
 }
 
 func checkC14(c *Ctx) {
-	c.rule = "(1) text operations through the element API: for texts over ASCII/CJK/astral/combining characters and U+FFFD, NUL, U+FEFF, U+2028, U+FFFF, U+10FFFF, the encoding-length boundaries U+0080 / U+07FF / U+0800, 长度 == 字数 == len(字符组) == number of code points; 取样(i,j) for every pair in [-(n+2), n+2]^2 (all pairs for n<=10, random beyond): inside 1<=i<=j<=n it must equal characters i..j of 字符组 joined, elsewhere any result must be valid UTF-8 (never half a character); every pair is repeated on a shadow text of equally many distinct one-byte characters and must select the same positions with the same outcome kind (counting must not depend on byte lengths); 分隔 then 拼接 with the same separator is the identity; the same laws through Zn programs; (2) formatting ‹template› % ‹list› through Zn programs: templates mixing literal text and the documented placeholders {} {#} {#.N} {#+} {#.N%} {#.NE} (N in 0..40) with doubles from a boundary pool and random; expected text built from Python %-formatting; {} must insert exactly what 显示 prints for a value of any kind (objects, types, methods, exceptions, nested collections); templates that must be errors (count mismatch, numeric directive on a non-number, unbalanced/nested braces, directive not starting with #, # followed by other characters, absurd precision). distinct_nontrivial = distinct (family, text shape / directive sequence, outcome)"
+	c.rule = "(0) 长度 / 字数 / 字符组 of a text variable read again after the number / list handed out was changed in place (自增 / 自减 / 后增 / 前增, through a copy, as an argument, as a literal item): equal to the first read and to the number of characters; (1) text operations through the element API: for texts over ASCII/CJK/astral/combining characters and U+FFFD, NUL, U+FEFF, U+2028, U+FFFF, U+10FFFF, the encoding-length boundaries U+0080 / U+07FF / U+0800, 长度 == 字数 == len(字符组) == number of code points; 取样(i,j) for every pair in [-(n+2), n+2]^2 (all pairs for n<=10, random beyond): inside 1<=i<=j<=n it must equal characters i..j of 字符组 joined, elsewhere any result must be valid UTF-8 (never half a character); every pair is repeated on a shadow text of equally many distinct one-byte characters and must select the same positions with the same outcome kind (counting must not depend on byte lengths); 分隔 then 拼接 with the same separator is the identity; the same laws through Zn programs; (2) formatting ‹template› % ‹list› through Zn programs: templates mixing literal text and the documented placeholders {} {#} {#.N} {#+} {#.N%} {#.NE} (N in 0..40) with doubles from a boundary pool and random; expected text built from Python %-formatting; {} must insert exactly what 显示 prints for a value of any kind (objects, types, methods, exceptions, nested collections); templates that must be errors (count mismatch, numeric directive on a non-number, unbalanced/nested braces, directive not starting with #, # followed by other characters, absurd precision). distinct_nontrivial = distinct (family, text shape / directive sequence, outcome)"
 	c.assumptions = []string{"Python % formatting is the reference for the numeric directives", "{} is exercised with texts, booleans, 空 and small integers only (display spelling of doubles is unspecified)", "percent rendering is judged only where x*100 in double and exact decimal scaling agree"}
 	rng := c.Rand("c14")
 	py, err := startPyOracle(c.Root)
@@ -45,6 +45,26 @@ func checkC14(c *Ctx) {
 		return
 	}
 	defer py.close()
+
+	// ---------------------------------------------------------------- (0) what a text hands out is a value
+	// 长度 / 字数 / 字符组 are computed from the characters every time they are read: whatever a
+	// program does in place to the number or list it was handed, the next read counts the characters
+	{
+		hc := []handCase{}
+		for ti, t := range []string{"你好吗", "abc", "a😀b", "e\u0301x", "", "𠀀", "一二三四五六七八九十"} {
+			for mi, mut := range []string{
+				"以文之长度（自增：1）", "以文之字数（自减：2）", "以文之长度（自增：1）\n以文之长度（自增：1）", "以文之字符组（后增：“多”）", "以文之字符组（前增：“多”）",
+				"令长 = 文之长度\n以长（自增：5）", "令组 = 文之字符组\n以组（后增：“多”）", "（加：文之长度）", "以项遍历【文之长度，文之字数】：\n\t以项（自增：1）", "以【文之长度】#1（自增：3）",
+			} {
+				src := "令文 = 输入文\n如何加？\n\t输入数\n\t以数（自增：7）\n\t输出 数\n" +
+					"令前 = 【文之长度，文之字数，文之字符组，文】\n" + mut + "\n令后 = 【文之长度，文之字数，文之字符组，文】\n" +
+					"输出【前 为 后，文之长度 == 文之字符组之长度，文之字数】\n"
+				src = strings.ReplaceAll(src, "输入文", "“"+t+"”")
+				hc = append(hc, handCase{fmt.Sprintf("t%d/m%d", ti, mi), src, fmt.Sprintf("list[bool(true),bool(true),num(%d)]", len([]rune(t)))})
+			}
+		}
+		c.runHand("derived-text-values", hc)
+	}
 
 	// ---------------------------------------------------------------- (1) text operations
 	texts := []string{"", "a", "你好", "😀", "a😀b", "éx", "你好，世界", "𠀀𠀁", "\uFFFD", "a\uFFFDb\uFFFD", "\x00\uFEFF\uFFFF"}
